@@ -19,6 +19,7 @@ func buildProperties() []Property {
 			Decides:    "agreement of the writer's and the reader's tables and exactness of the number paths: every escape the writer can emit is accepted by the lexer class, matched by the reader's pattern and mapped back to the same character; quote, backslash and control characters always trigger escaping; floats are written with the shortest round-tripping representation and read by one correctly rounding conversion; write_term/3 and read_term/3 use the VM's one operator table. The write options are extended copy-on-write: a map reached through an options struct received by value is never updated in place.",
 			NotDecided: "bracketing/spacing correctness for operator contexts - the heart of the round trip - which depends on pairs (context operator, operand) over all tables.",
 			Rules: []RuleDef{
+				{"R-FUNCTOR-NOT-OPERAND", 1, ruleFunctorNotOperand},
 				{"R-QUOTE-AGREES", 2, ruleQuoteAgrees},
 				{"R-NUMBER-WRITE-SIBLINGS", 6, ruleNumberWriteSiblings},
 				{"R-FLOAT-FINITE", 1, ruleFloatFinite},
